@@ -122,11 +122,17 @@ type plan struct {
 func c15Scenario(name string, plans []plan, pb int) vx.Scenario {
 	// the streams are schedule-independent when the property holds; schedules are explored
 	// (delay-bounded) on the small plans, the large ones run on the default schedule
-	big := 0
+	big, nbytes := 0, 0
 	for _, p := range plans {
 		for _, n := range append(append([]int{}, p.up...), p.down...) {
 			big += n / p.rbuf
+			nbytes += n
 		}
+	}
+	if nbytes > 40000 {
+		// every byte passes the per-byte copy loop of WebsocketNetConn.Read, whose memory accesses are
+		// all announced: the large plans run on the default schedule, the small ones carry the schedules
+		big = 1 << 20
 	}
 	return vx.Scenario{Name: name, PB: pb + 1, Delay: true, Single: big > 300, MaxSteps: 400000, MaxTime: 20 * time.Minute,
 		Setup: func(s *vs.Sched) func(*vs.Result) vx.Exec {
